@@ -152,7 +152,54 @@ class Ref:
             lo, hi = QRANGE.get(t["type"], (-(1 << 20), 1 << 20))
             val[out] = (lo + np.mod(acc, hi - lo + 1)).reshape(t["shape"])
 
+    def consumers(self, ti):
+        return [op2 for op2 in self.sg["operators"] if ti in op2["inputs"]]
+
+    def float_island(self, op):
+        """DEQUANTIZE -> EXP | LOG -> QUANTIZE in float32 (every reader of the float tensors inside the pattern): the one
+        float computation that is interpreted, because Vela may replace it by a table on the quantised codes"""
+        k = op["opcode"]
+        if k == "DEQUANTIZE":
+            cs = self.consumers(op["outputs"][0])
+            return self.tens(op["inputs"][0])["type"] in QRANGE and bool(cs) and all(
+                c["opcode"] in ("EXP", "LOG") and self.float_island(c) for c in cs)
+        if k in ("EXP", "LOG"):
+            cs = self.consumers(op["outputs"][0])
+            return self.tens(op["inputs"][0])["type"] == "float32" and bool(cs) and all(
+                c["opcode"] == "QUANTIZE" and self.tens(c["outputs"][0])["type"] in ("int8", "uint8") for c in cs)
+        if k == "QUANTIZE":
+            prod = [p for p in self.sg["operators"] if op["inputs"][0] in p["outputs"]]
+            if not prod or prod[0]["opcode"] not in ("EXP", "LOG"):
+                return False
+            pp = [p for p in self.sg["operators"] if prod[0]["inputs"][0] in p["outputs"]]
+            return bool(pp) and pp[0]["opcode"] == "DEQUANTIZE" and self.float_island(pp[0])
+        return False
+
     def step(self, op, val):
+        k = op["opcode"]
+        if k in ("DEQUANTIZE", "EXP", "LOG", "QUANTIZE") and self.float_island(op):
+            i0, o0 = op["inputs"][0], op["outputs"][0]
+            if k == "DEQUANTIZE":
+                (si,), (zi,) = [x[:1] for x in self.quant(i0)]
+                val[o0] = (val[i0].astype(np.float32) - np.float32(zi)) * np.float32(si)
+            elif k == "EXP":
+                val[o0] = np.exp(val[i0].astype(np.float32)).astype(np.float32)
+            elif k == "LOG":
+                with np.errstate(divide="ignore", invalid="ignore"):
+                    val[o0] = np.log(val[i0].astype(np.float32)).astype(np.float32)
+                if np.isnan(val[o0]).any():
+                    raise Unsupported("LOG of a negative value")
+                val[o0] = np.maximum(val[o0], np.float32(-1e30))      # log(0) = -inf quantises to the smallest code
+            else:
+                for c in self.consumers(o0):
+                    raise Unsupported("quantised float island feeding another operator (one step allowed at an output only)")
+                (so,), (zo,) = [x[:1] for x in self.quant(o0)]
+                lo, hi = QRANGE[self.tens(o0)["type"]]
+                q = val[i0].astype(np.float64) / float(np.float32(so))
+                r = np.where(q >= 0, np.floor(q + 0.5), np.ceil(q - 0.5))
+                val[o0] = np.clip(r.astype(np.int64) + int(zo), lo, hi)
+                self.has_table_op = True
+            return
         if self.is_standin(op):
             self.standin(op, val)
             return
@@ -160,6 +207,29 @@ class Ref:
             k = op["opcode"]
             o = op["options"] or {}
             ins, outs = op["inputs"], op["outputs"]
+            if k in ("SPACE_TO_BATCH_ND", "BATCH_TO_SPACE_ND"):
+                blk, pc = self.const(ins[1]), self.const(ins[2])
+                x_ = val[ins[0]]
+                if blk is None or pc is None or x_.ndim != 4 or len(blk.reshape(-1)) != 2:
+                    raise Unsupported("space/batch rearrangement other than 4-D with constant block and paddings")
+                bh, bw = (int(v) for v in blk.reshape(-1))
+                (a0, a1), (b0, b1) = [[int(v) for v in row] for row in pc.reshape(2, 2)]
+                if k == "SPACE_TO_BATCH_ND":
+                    zp_ = int(self.quant(outs[0])[1][0])
+                    xp = np.pad(x_, ((0, 0), (a0, a1), (b0, b1), (0, 0)), constant_values=zp_)
+                    n_, hp, wp, c_ = xp.shape
+                    if hp % bh or wp % bw:
+                        raise Unsupported("padded extent is not a multiple of the block")
+                    y_ = xp.reshape(n_, hp // bh, bh, wp // bw, bw, c_).transpose(2, 4, 0, 1, 3, 5).reshape(bh * bw * n_, hp // bh, wp // bw, c_)
+                else:
+                    b_, h_, w_, c_ = x_.shape
+                    n_ = b_ // (bh * bw)
+                    y_ = x_.reshape(bh, bw, n_, h_, w_, c_).transpose(2, 3, 0, 4, 1, 5).reshape(n_, h_ * bh, w_ * bw, c_)
+                    y_ = y_[:, a0:h_ * bh - a1, b0:w_ * bw - b1, :]
+                if list(y_.shape) != list(self.tens(outs[0])["shape"]):
+                    raise Unsupported("declared shape of a space/batch rearrangement differs from the computed one")
+                val[outs[0]] = y_
+                return
             if k in ("CONV_2D", "DEPTHWISE_CONV_2D"):
                 val[outs[0]] = self.conv(val[ins[0]], ins, outs[0], o, depthwise=(k != "CONV_2D"))
             elif k == "FULLY_CONNECTED":
@@ -272,7 +342,7 @@ class Ref:
                                 raise Unsupported("MUL+MAXIMUM leaky ReLU feeding another operator")
                             self.has_table_op = True
                 val[outs[0]] = self.elementwise(k, ins, outs[0], o, val)
-            elif k in ("LOGISTIC", "TANH", "LEAKY_RELU", "HARD_SWISH"):
+            elif k in ("LOGISTIC", "TANH", "LEAKY_RELU", "HARD_SWISH", "EXP", "RSQRT"):
                 # table-based on the NPU: the property allows one step, which is only meaningful when nothing computes
                 # on the result afterwards
                 # ... or only a ReLU-type clamp with the same quantisation (monotone: the step stays one step)
@@ -419,6 +489,13 @@ class Ref:
             y = 1.0 / (1.0 + np.exp(-x))
         elif k == "TANH":
             y = np.tanh(x)
+        elif k == "EXP":
+            y = np.exp(x)
+        elif k == "RSQRT":
+            if ty != "int8" or (val[in_idx].astype(np.int64) - int(zi) < 0).any():
+                raise Unsupported("RSQRT of a negative value (the kernel rejects it)")
+            with np.errstate(divide="ignore"):
+                y = np.where(x > 0, 1.0 / np.sqrt(np.maximum(x, 1e-300)), 1e9)     # the kernel returns the largest code for 0
         elif k == "LEAKY_RELU":
             alpha = o.get("Alpha", 0.0)
             alpha = float.fromhex(alpha) if isinstance(alpha, str) else float(alpha)
@@ -598,8 +675,8 @@ class Ref:
         sh, sw_ = o.get("StrideH", 1), o.get("StrideW", 1)
         dh, dw = o.get("DilationHFactor", 1), o.get("DilationWFactor", 1)
         n, H, W, C = x.shape
-        if n != 1:
-            raise Unsupported("batch")
+        if n != 1:           # the kernels treat the batches independently
+            return np.concatenate([self.conv(x[b_:b_ + 1], ins, out_idx, o, depthwise) for b_ in range(n)], axis=0)
         if depthwise:
             _, kh, kw, oc = w.shape
             mult = o.get("DepthMultiplier", 1)
